@@ -124,7 +124,8 @@ def to_step(s):
             continue
         t = o["tag"][5:] if o["tag"].startswith("json:") else ""
         reads.append({"h": o["h"], "as": t if t in BYTES and t != "bool" else ""})
-    return {"a": s["a"], "h": s["h"], "k": s["k"], "x": {"t": s["x"]["t"], "v": s["x"]["v"]}, "src": s["src"], "i": s["i"], "reads": reads}
+    call = {"pset": "oset", "pget": "oget", "phas": "ohas"}.get(s["a"], s["a"])   # path keys go through the same C calls
+    return {"a": call, "h": s["h"], "k": s["k"], "x": {"t": s["x"]["t"], "v": s["x"]["v"]}, "src": s["src"], "i": s["i"], "reads": reads}
 
 
 class PushRefCtx:
@@ -253,6 +254,9 @@ def compare_behaviour(ctx, b, case, o, is_pushref):
             ctx.mismatch("construct:ambiguous:%s" % ob.get("amb"), "occa%s() differs from the sized constructor for %s" % (ob.get("amb"), s["x"]), art)
         if s["a"] == "echo":
             check_echo(ctx, s["k"], ob["echo"], art[0])
+        if s["a"] == "phas" and ob.get("has") != s["res"]:
+            ctx.mismatch("json:phas:result:%s" % ("missing" if s["res"] else "phantom"),
+                         "occaJsonObjectHas(h%d, %r) = %s, spec %s" % (s["h"], s["k"], ob.get("has"), s["res"]), art)
     return reads
 
 
@@ -292,7 +296,7 @@ def run(ctx):
     ctx.tlc_must_pass(r, "CApi design")
     ctx.require_coverage(r, ["Create", "ObjSet", "ObjGet", "ArrPush", "ArrGet", "ArrChange", "Free", "FreeAgain"])
     # 2. behaviours: all scalars (script shaped), all short histories, random long histories
-    gens = [("mc/CApi_scalars.cfg", None), ("mc/CApi_pushref.cfg", None), ("mc/CApi_gen.cfg", None), ("mc/CApi_sim.cfg", 6000 if ctx.tier == "thorough" else 600)]
+    gens = [("mc/CApi_scalars.cfg", None), ("mc/CApi_pushref.cfg", None), ("mc/CApi_paths.cfg", None), ("mc/CApi_gen.cfg", None), ("mc/CApi_sim.cfg", 6000 if ctx.tier == "thorough" else 600)]
     behaviours, counts, pushref_keys = [], {}, set()
     for cfg, sim in gens:
         w = min(WORKERS, 4)
@@ -341,7 +345,8 @@ def run(ctx):
         "integer tokens: least value, -1 (signed), 0, 1, 2^(w-1) (unsigned), greatest value -- for every width, in the quick tier too",
         "a reference handle is used only while its owner lives and its location exists (ArrayPop/Clear/Insert and ObjectSet over a container end the locations below); ObjectSet of other keys must not invalidate",
         "ArrayPush: the intended behaviour (element handles stay valid) is generated by CApi_pushref.cfg only; all other runs use the named deviation PushKeepsRefs = FALSE (element handles of an array end at a push), so that the rest of each history keeps being validated",
-        "documents of depth <= 2, keys {a,b}, arrays up to 2 (exhaustive) / 4 (simulation) entries, up to 3 / 6 handles",
+        "path keys a, a/b, a/b/c, a/a (and a/b, b/a, a/b/a in random histories) for ObjectSet / ObjectGet(default) / ObjectHas with nested-dictionary semantics: set creates intermediates, has and get agree, a path that does not resolve (missing member or scalar on the way) returns the default with its type; documents built through the C calls only (not occaJsonParse)",
+        "documents of depth <= 2 (3 with path keys), keys {a,b}, arrays up to 2 (exhaustive) / 4 (simulation) entries, up to 3 / 6 handles",
         "kernel-argument conversion observed end to end: a Serial kernel writes its 10 scalar parameters (and a bool) to memory",
         "memory safety (use after free, double free, leaks of documents) is monitored by ASan on the explored behaviours only; LSan is off (parser leaks in the JIT path)"]
     return ctx.finish(exhaustive=False)
